@@ -155,11 +155,6 @@ pub(super) fn animate<T: Component>(
         // from the `timeline` struct anymore after the `update`.
         let timeline_delay = timeline.delay();
         let timeline_duration = timeline.duration();
-        if animator.state == AnimationState::Playing {
-            if let Ok(mut target) = targets.get_mut(entity) {
-                timeline.update(&mut target, position_secs);
-            }
-        }
         let mut state_changed = false;
         if animator.state == AnimationState::None {
             animator.state = AnimationState::Waiting;
@@ -172,6 +167,17 @@ pub(super) fn animate<T: Component>(
         if position_secs >= timeline_duration && animator.state != AnimationState::Ended {
             animator.state = AnimationState::Ended;
             state_changed = true;
+        }
+        // Evaluate on every frame in which the animation is playing, including the frame on which
+        // it starts to play, and one last time on the frame on which it ends, so that the target
+        // always lands on the final values no matter how long that frame was.
+        let just_ended = state_changed && animator.state == AnimationState::Ended;
+        if animator.state == AnimationState::Playing || just_ended {
+            if let (Some(timeline), Ok(mut target)) =
+                (animator.timeline.as_ref(), targets.get_mut(entity))
+            {
+                timeline.update(&mut target, position_secs);
+            }
         }
         if animator.state != AnimationState::Ended {
             animator.timeline_position += time.delta();
